@@ -119,6 +119,7 @@ Record tinv (ch : list head) (cfg : option head) (c : client) (t : nat) (th : th
 
 Record cinv (ch : list head) (ths : list thread) (ci : nat) (c : client) : Prop := {
   ci_mem : hin ch (c_mem c);
+  ci_nonneg : 0 <= size (c_mem c);
   ci_init : forall t0, c_init c = IRunning t0 ->
             exists th0, nth_error ths t0 = Some th0 /\ t_cl th0 = ci /\ sect_of th0 = SInit;
   ci_run : forall k t0, lookup k (c_cells c) = Some (CRunning t0) ->
@@ -161,4 +162,82 @@ Proof.
   - intros H1 H2; specialize (ti_loop0 H1 H2); lia.
   - intros H; specialize (ti_check0 H); lia.
   - intros H1 H2; specialize (ti_cfg0 H1 H2); lia.
+Qed.
+
+(* ---- one step of a thread ------------------------------------------------------------------- *)
+Opaque match_prefix_patterns.
+Ltac crack H :=
+  unfold step_at in H;
+  repeat match type of H with
+  | context [match ?x with _ => _ end] => destruct x eqn:?
+  end; try discriminate H; inversion H; subst; clear H.
+
+Ltac zb := repeat match goal with
+  | H : (_ <=? _) = true |- _ => apply Z.leb_le in H
+  | H : (_ <=? _) = false |- _ => apply Z.leb_gt in H
+  | H : (_ <? _) = true |- _ => apply Z.ltb_lt in H
+  | H : (_ <? _) = false |- _ => apply Z.ltb_ge in H
+  | H : (_ =? _) = true |- _ => apply Z.eqb_eq in H
+  | H : (_ =? _) = false |- _ => apply Z.eqb_neq in H
+  | H : ohead_eqb _ _ = true |- _ => apply ohead_eqb_eq in H
+  end.
+
+Ltac spec := repeat match goal with
+  | H : ?x = ?x -> _ |- _ => specialize (H eq_refl)
+  | H : ?x = ?x \/ _ -> _ |- _ => specialize (H (or_introl eq_refl))
+  | H : _ \/ ?x = ?x -> _ |- _ => specialize (H (or_intror eq_refl))
+  | H : _ \/ (?x = ?x /\ ?y = ?y) -> _ |- _ => specialize (H (or_intror (conj eq_refl eq_refl)))
+  | H : ?a = ?b -> _ |- _ => first [ (assert (a <> b) by discriminate); clear H ]
+  | H : ?a = ?b \/ ?c = ?d -> _ |- _ => (assert (a <> b) by discriminate); (assert (c <> d) by discriminate); clear H
+  | H : ?a = ?b \/ (_ /\ ?c = ?d) -> _ |- _ => (assert (a <> b) by discriminate); (assert (c <> d) by discriminate); clear H
+  end.
+
+Ltac ifs := repeat match goal with
+  | |- context [if ?x then _ else _] => destruct x eqn:?
+  | |- context [match ?x with _ => _ end] => destruct x eqn:?
+  end.
+
+Ltac fin :=
+  cbn in *; intros; zb; subst; cbn in *; spec; subst; cbn in *;
+  try discriminate; try congruence; auto; try lia;
+  try (intuition (try discriminate; try congruence; try lia; eauto); fail).
+
+Lemma step_at_tinv ch cfg cache srv c t th th' c' cfg' cache' l :
+  tinv ch cfg c t th -> hin ch (c_mem c) -> 0 <= size (c_mem c) -> hin ch cfg ->
+  (forall k r, lookup k (c_cells c) = Some (CDone r) -> r = ROk k) ->
+  (forall k h, lookup k cache = Some h -> In h ch) -> hin ch srv ->
+  step_at t th c cfg cache srv = Some (th', c', cfg', cache', l) ->
+  tinv ch cfg' c' t th'.
+Proof.
+  intros Hi Hmem Hnn Hcfg Hdone Hcache Hsrv H.
+  destruct th as [cl path key p msg lat first init data wc new res].
+  crack H; cbn in *; subst p; destruct Hi; cbn in *; unfold sect_of, skips in *; cbn in *; spec.
+  all: unfold decide, ret, mdone; cbn; ifs; cbn in *.
+  all: constructor; unfold sect_of, skips; fin.
+  all: try rewrite Nat.eqb_refl; auto.
+  all: try match goal with H : ?x = true |- context [if ?x then _ else _] => rewrite H; auto end.
+  all: try match goal with
+    | Hs : ?x = true -> _ \/ _ |- context [if ?x then _ else _] =>
+        destruct x; [exfalso; destruct (Hs eq_refl); discriminate|]
+    end; fin.
+Qed.
+
+Lemma step_at_static t th c cfg cache srv th' c' cfg' cache' l :
+  step_at t th c cfg cache srv = Some (th', c', cfg', cache', l) ->
+  t_cl th' = t_cl th /\ t_key th' = t_key th /\ t_path th' = t_path th /\
+  c_nosumdb c' = c_nosumdb c.
+Proof.
+  intros H. destruct th as [cl path key p msg lat first init data wc new res].
+  crack H; cbn in *; unfold decide, ret, mdone; cbn; ifs; cbn; auto.
+Qed.
+
+Lemma step_at_cext t2 ch cfg cache srv c t th th' c' cfg' cache' l :
+  t2 <> t -> tinv ch cfg c t th ->
+  step_at t th c cfg cache srv = Some (th', c', cfg', cache', l) ->
+  cext t2 c c' /\ size cfg <= size cfg'.
+Proof.
+  intros Hne Hi H. destruct th as [cl path key p msg lat first init data wc new res].
+  crack H; cbn in *; subst p; destruct Hi; cbn in *; unfold sect_of in *; cbn in *; spec.
+  all: split; [constructor|]; fin.
+  all: destruct (Nat.eqb_spec k key); subst; auto; congruence.
 Qed.
